@@ -235,6 +235,8 @@ class Engine:
             return self.do_try(s, st)
         if isinstance(s, ast.For):
             return self.do_for(s, st)
+        if isinstance(s, ast.While):
+            return self.do_while(s, st)
         if isinstance(s, (ast.FunctionDef, ast.AsyncFunctionDef)):
             # a local coroutine function is analysed as if its body ran when it is called: the *sequentialised* behaviour (what happens, in
             # which order, once the awaited values arrive) is what trace contracts speak about
@@ -439,6 +441,48 @@ class Engine:
                     nxt.append(a.fork("L%d.not-caught" % h.lineno) if verdict is None else a)
             pending = nxt
         out += [(a, "raise", exc) for a in pending]
+        return out
+
+    def havoc_assigned(self, body, st):
+        """the abstract iteration stands for *any* iteration: locals the body assigns are unknown at its start"""
+        for n_ in ast.walk(ast.Module(body=list(body), type_ignores=[])):
+            targets = []
+            if isinstance(n_, ast.Assign):
+                targets = n_.targets
+            elif isinstance(n_, (ast.AugAssign, ast.AnnAssign, ast.NamedExpr)):
+                targets = [n_.target]
+            elif isinstance(n_, ast.For):
+                targets = [n_.target]
+            for t_ in targets:
+                for x_ in ast.walk(t_):
+                    if isinstance(x_, ast.Name) and st.lookup(x_.id) is not None:
+                        st.bind(x_.id, Unknown(x_.id))
+
+    def do_while(self, s, st):
+        """zero iterations (the test fails in the entry state), or one abstract iteration from a state in which every loop-assigned local is
+        unknown (test true, body), after which the loop is left (by break, or with the test false)"""
+        tag = "L%d" % s.lineno
+        text = ast.unparse(s.test)
+        after = lambda a: self.block(s.orelse, a) if s.orelse else [(a, "next", None)]     # noqa: E731
+        out = self.branch(s.test, st.fork(tag + ".none"), lambda a: [], after, tag + ".entry")
+        b = st.fork(tag + ".iter")
+        self.havoc_assigned(s.body, b)
+
+        def iteration(a):
+            a.emit("while[%s]{" % text)
+            res = []
+            for c, k2, v2 in self.block(s.body, a):
+                if k2 == "break":
+                    c.emit("}")
+                    res.append((c, "next", None))
+                elif k2 in ("next", "continue"):
+                    c.emit("}")
+                    res += self.branch(s.test, c, lambda x: [], after, tag + ".exit")
+                else:
+                    c.emit("}!")
+                    res.append((c, k2, v2))
+            return res
+        out += self.branch(s.test, b, iteration, lambda a: [], tag + ".test")
         return out
 
     def do_for(self, s, st):
